@@ -248,7 +248,7 @@ def _apply(ops, op, inst=1):
         ops.append({"op": "validate", "i": inst, "detail": "digest"})
 
 
-def hist_scenario(s, src, entry="direct"):
+def hist_scenario(s, src, entry="direct", full=False):
     """Replays one TLC behaviour; after EVERY step the live parser and a fresh parser loaded from the
     abstract state TLC attached to that step are both validated (the trace spec compares them)."""
     start = _dict(s["start"])
@@ -281,7 +281,7 @@ def hist_scenario(s, src, entry="direct"):
     steps = s["h"]
     for n, st in enumerate(steps):
         _apply(ops, st["op"])
-        ops.append({"op": "validate", "i": 1, "detail": "full" if n + 1 == len(steps) else "digest"})
+        ops.append({"op": "validate", "i": 1, "detail": "full" if full or n + 1 == len(steps) else "digest"})
         _fresh(ops, _dict(st["after"]))
     return {"sid": "", "src": src, "ops": ops}
 
